@@ -2025,6 +2025,10 @@ def _assert_discharged(ctx, fi: FuncInfo, a: ast.Assert) -> tuple[bool, str]:
     t = a.test
     if _is_size_guard(t):
         return False, "the assertion limits the size of the molecule"
+    from ..sizedom import assertion_holds
+    why_ = assertion_holds(ctx, fi, a)
+    if why_:
+        return True, why_
     if not (isinstance(t, ast.Compare) and len(t.ops) == 1 and isinstance(t.ops[0], ast.Eq)):
         raise AnalysisError(f"R-FAILSITES: cannot decide whether `{short(a)}` in {fi.qualname} holds for every molecule (not the label-count check this rule knows)")
     sides = [norm(t.left), norm(t.comparators[0])]
